@@ -14,7 +14,11 @@ CONSTANTS MaxHist
 
 Entries == {"fractional_abundance", "from_elementdensity", "match_plasma_neutrality"}
 Elements == {"helium", "carbon"}
-Reps == {"scalar", "ndarray", "function1d"}       \* how n_e, T_e and the donor density are handed over
+Reps == {"scalar", "ndarray", "function1d", "function2d"}       \* how n_e, T_e and the donor density are handed over
+\* front-ends: the entry point itself, the 1-D / 2-D interpolator builders (results evaluated at their nodes) and the
+\* equilibrium-mapped variant (profiles of normalised flux, result evaluated at points of known flux)
+Fronts == {"direct", "interpolators1d", "interpolators2d", "equilibrium_map3d"}
+RepsOf(fr) == CASE fr = "direct" -> Reps [] fr = "interpolators2d" -> {"function2d"} [] OTHER -> {"function1d"}
 Donor == {"none", "shared"}                        \* without CX donor / with the caller's donor profile
 \* the caller's profiles: every point its own plasma state, or two points with identical (n_e, T_e, n_D) but different
 \* densities of the other species (an impurity scan at fixed plasma parameters)
@@ -26,10 +30,11 @@ VARIABLES profile,   \* which set of profiles the caller owns in this session
 vars == <<profile, inputs, hist>>
 
 Init == profile \in Profiles /\ inputs = [ne |-> 0, te |-> 0, nd |-> 0, nel |-> 0] /\ hist = <<>>
-Call(e, el, rep, d) ==
+Call(e, el, fr, rep, d) ==
+    /\ rep \in RepsOf(fr)
     /\ UNCHANGED <<inputs, profile>>
-    /\ hist' = Append(hist, [entry |-> e, element |-> el, rep |-> rep, donor |-> d])
-Next == Len(hist) < MaxHist /\ \E e \in Entries, el \in Elements, rep \in Reps, d \in Donor : Call(e, el, rep, d)
+    /\ hist' = Append(hist, [entry |-> e, element |-> el, front |-> fr, rep |-> rep, donor |-> d])
+Next == Len(hist) < MaxHist /\ \E e \in Entries, el \in Elements, fr \in Fronts, rep \in Reps, d \in Donor : Call(e, el, fr, rep, d)
 Spec == Init /\ [][Next]_vars
 
 InputsUntouched == inputs = [ne |-> 0, te |-> 0, nd |-> 0, nel |-> 0]
